@@ -2337,7 +2337,15 @@ class PyCdlib:
             if udf_file_entry is None:
                 continue
 
+            seen_descs = set()
             for desc in udf_file_entry.alloc_descs:
+                # An extent that is listed again holds the same File
+                # Identifiers again; every repetition would multiply the
+                # entries of this directory (and everything below it).
+                desc_key = (desc.log_block_num, desc.offset, desc.extent_length)
+                if desc_key in seen_descs:
+                    continue
+                seen_descs.add(desc_key)
                 abs_file_ident_extent = part_start + desc.log_block_num
                 self._seek_to_extent(abs_file_ident_extent)
                 self._cdfp.seek(desc.offset, 1)
